@@ -155,6 +155,15 @@ class Models(object):
 
     # maps -----------------------------------------------------------------------------
     def map_index(self, ev, m, k):
+        if m.op == "ite":
+            # joins of maps are DAGs with heavy sharing: one visit per (map node, key)
+            memo = self.__dict__.setdefault("_mapidx_memo", {})
+            key = (m.id, k.id)
+            r = memo.get(key)
+            if r is None:
+                r = tm.ite(m.a[0], self.map_index(ev, m.a[1], k), self.map_index(ev, m.a[2], k))
+                memo[key] = r
+            return r
         if m.op == "emap":
             i = self.key_index(m, k)
             if i is not None:
@@ -174,6 +183,14 @@ class Models(object):
         return mk("mapidx", m, k)
 
     def map_contains(self, ev, m, k):
+        if m.op == "ite":
+            memo = self.__dict__.setdefault("_mapcont_memo", {})
+            key = (m.id, k.id)
+            r = memo.get(key)
+            if r is None:
+                r = tm.ite(m.a[0], self.map_contains(ev, m.a[1], k), self.map_contains(ev, m.a[2], k))
+                memo[key] = r
+            return r
         if m.op == "emap":
             i = self.key_index(m, k)
             if i is not None:
@@ -220,8 +237,14 @@ class Models(object):
                 vi = tm.subst(v, sub) if sub else v
                 out = self.emap_set(out, i, tm.or_(c, p), tm.ite(c, vi, old))
             return out
-        if m.op == "ite" and m.a[1].op == "emap" and m.a[2].op == "emap":
-            return tm.ite(m.a[0], self.map_insert(ev, m.a[1], k, v), self.map_insert(ev, m.a[2], k, v))
+        if m.op == "ite" and m.a[1].op in ("emap", "ite") and m.a[2].op in ("emap", "ite"):
+            memo = self.__dict__.setdefault("_mapins_memo", {})
+            key = (m.id, k.id, v.id)
+            r = memo.get(key)
+            if r is None:
+                r = tm.ite(m.a[0], self.map_insert(ev, m.a[1], k, v), self.map_insert(ev, m.a[2], k, v))
+                memo[key] = r
+            return r
         return mk("mapinsert", m, k, v)
 
     def map_remove(self, ev, m, k):
